@@ -16,10 +16,21 @@ def run(rep, tier, seed, replay):
     pairs = []
     cases = []
     for c in base:
+        import random
+        r = random.Random(hash(c.req()) & 0xffff)
         if (c.mn, c.mx) == ("-", "-"):
-            import random
-            r = random.Random(hash(c.req()) & 0xffff)
             c.mn, c.mx = r.choice("-0123"), r.choice("-01234")
+        # every public constructor of the depth behaviour, not only DepthBehavior::bounded
+        z = r.random()
+        if z < 0.25:
+            p, q = r.choice("01234"), r.choice("01234")
+            if r.random() < 0.6 and p < q:
+                p, q = q, p                                    # from_depths_or_max: "the depths need not be ordered"
+            c.mn, c.mx = "x" + p, q
+        elif z < 0.32:
+            c.mn, c.mx = "m" + r.choice("0123"), "-"
+        elif z < 0.45 and c.mode == "g":
+            c.mn = "v" + c.mn
         u = c.clone(mn="-", mx="-")
         cases += [c, u]
         pairs.append((c, u))
@@ -31,14 +42,24 @@ def run(rep, tier, seed, replay):
     h = common.harness()
     for c, u in pairs:
         walklib.stats_for(rep, c)
+        rep.stats["constructor:" + {"x": "from_depths_or_max", "m": "from_min_or_unbounded", "v": "bounded_at_depth_variance"}.get(c.mn[:1], "bounded")] += 1
+        if not (c.head == "depthnone" or c.head.startswith("root=")):
+            rep.stats["outcome:" + c.head] += 1
+            continue
+        if c.mn[:1] == "v" and "lower" not in c.f:
+            rep.stats["outcome:depth query of the pattern panics"] += 1
+            continue
+        verdict, lo, hi = walklib.documented_bounds(c)
+        if (c.head == "depthnone") != (verdict == "refused"):
+            rep.violation("oracle", "the constructor of the depth behaviour %s bounds the documentation says it %s" % (
+                ("refuses", "accepts") if c.head == "depthnone" else ("accepts", "refuses")), c.describe(), impl=c.impl[:200])
+            continue
         if c.head == "depthnone":
-            rep.stats["bounds rejected by DepthBehavior::bounded"] += 1
+            rep.stats["bounds refused by the constructor, as documented"] += 1
             continue
         if not (c.head.startswith("root=") and u.head.startswith("root=")):
             rep.stats["outcome:" + c.head] += 1
             continue
-        lo = 0 if c.mn == "-" else int(c.mn)
-        hi = None if c.mx == "-" else int(c.mx)
         all_ = walklib.ok_items(u.f.get("items"))
         want = [it for it in all_ if it[3] >= lo and (hi is None or it[3] <= hi)]
         got = walklib.ok_items(c.f.get("items"))
